@@ -37,6 +37,7 @@ func runC02(c *Ctx) {
 	ruleR02_2(c)
 	ruleR02_1(c)
 	ruleR02_6(c)
+	ruleAlternativeStorageFresh(c, "R02.6")
 }
 
 func isInvokeOf(names ...string) func(ssa.Instruction) bool { return isCallInstrTo(names...) }
@@ -92,11 +93,14 @@ func ruleR02_3(c *Ctx) {
 		}
 		c.obI("R02.3", a, "authenticator-from-table", okKey, "the authenticator consulted is ra.Authenticator[scheme]", "receiver "+describe(av))
 		if okKey && len(a.Call.Args) == 1 {
-			okArg := false
+			os := originsOf(a.Call.Args[0])
+			okArg := len(os) > 0
 			why := "argument is not a fresh security.ScopedAuthRequest"
-			for _, o := range originsOf(a.Call.Args[0]) {
+			nOther := 0
+			for _, o := range os {
 				al, ok := o.V.(*ssa.Alloc)
 				if !ok {
+					nOther++ // every value the argument can take must be the scoped wrapper
 					continue
 				}
 				okReq, okScopes := false, false
@@ -114,14 +118,17 @@ func ruleR02_3(c *Ctx) {
 						}
 					}
 				}
-				okArg = okReq && okScopes
+				okArg = okArg && okReq && okScopes
 				if !okReq {
 					why = "ScopedAuthRequest.Request is not the request parameter"
 				} else if !okScopes {
 					why = "ScopedAuthRequest.RequiredScopes is not ra.Scopes[<same scheme>]"
 				}
 			}
-			c.obI("R02.3", a, "scoped-request", okArg, "the authenticator receives the request and the scopes required for the same scheme", why)
+			if nOther > 0 {
+				okArg, why = false, "on some path the authenticator is handed something other than a fresh security.ScopedAuthRequest (scoped authenticators answer 'not applicable' to a bare request)"
+			}
+			c.obI("R02.3", a, "scoped-request", okArg, "the authenticator always receives a security.ScopedAuthRequest carrying the request and the scopes required for the same scheme", why)
 		}
 	}
 	// returned error / principal provenance
